@@ -590,3 +590,73 @@ def any_dataset(rng, family=None, **kw):
     if family == 'ugrid':
         return ugrid(rng, **kw)
     raise ValueError(family)
+
+
+# --------------------------------------------------------------------------------------------
+# depth coordinates (C12, C13)
+
+DEPTH_NAMES = {'shoc_standard': ('z_centre', 'z_grid'), 'shoc_simple': ('zc', 'zcsed')}
+TIME_NAMES = {'shoc_standard': 't', 'shoc_simple': 'time'}
+
+
+def add_depth(rng, ds, *, dim='k', n=None, name=None, up=None, deep_first=None, positive=None, bounds=None,
+              second=None, marker=None, second_name=None):
+    """Add a depth dimension with one (or two) coordinates.  The physical column is `phys` (eighths of a metre,
+    positive down, surface first); the file stores it negated when `up` and reversed when `deep_first`.
+    positive: 'attr' (attribute says up/down), 'none' (no positive attribute - the code guesses from the values).
+    Returns (ds, spec)."""
+    n = n or rng.randint(2, 5)
+    if up is None:
+        up = rng.random() < 0.5
+    if deep_first is None:
+        deep_first = rng.random() < 0.5
+    if positive is None:
+        positive = 'attr' if rng.random() < 0.75 else 'none'
+    if bounds is None:
+        bounds = rng.random() < 0.5
+    if second is None:
+        second = rng.random() < 0.25
+    if name is None:
+        name = dim if rng.random() < 0.4 else f'{dim}_centre'
+    lo = rng.choice([0, 0, 1, 4])
+    steps = [rng.choice([2, 4, 8, 12]) for _ in range(n)]
+    edges = [lo]
+    for s in steps:
+        edges.append(edges[-1] + 2 * s)
+    phys = [(edges[i] + edges[i + 1]) // 2 for i in range(n)]          # eighths
+    pb = [(edges[i], edges[i + 1]) for i in range(n)]
+
+    def store(vals, pairs):
+        vals = [-v for v in vals] if up else list(vals)
+        pairs = [(-a, -b) for a, b in pairs] if up else list(pairs)
+        if deep_first:
+            vals, pairs = vals[::-1], pairs[::-1]
+        return vals, pairs
+    vals, pairs = store(phys, pb)
+    attrs = {}
+    if positive == 'attr':
+        attrs['positive'] = 'up' if up else 'down'
+        if rng.random() < 0.3:
+            attrs['axis'] = 'Z'
+    else:
+        attrs[rng.choice(['axis', 'cartesian_axis', 'coordinate_type'])] = 'Z'
+    coords = []
+    if bounds:
+        attrs['bounds'] = f'{name}_bnds'
+        ds[f'{name}_bnds'] = xarray.DataArray(numpy.array(pairs, dtype='f8') / F8, dims=[dim, 'bnds2'])
+    ds = ds.assign_coords({name: xarray.DataArray(numpy.array(vals, dtype='f8') / F8, dims=[dim], attrs=attrs)})
+    coords.append({'name': name, 'attr': attrs.get('positive'), 'vals': vals, 'bounds': pairs if bounds else None})
+    if second:
+        # a second coordinate on the same dimension (e.g. layer interfaces' mid-depth in another unit): same
+        # orientation in the file, its own sign convention
+        up2 = rng.random() < 0.5
+        v2 = [3 * p + 1 for p in phys]
+        v2 = [-v for v in v2] if up2 else v2
+        if deep_first:
+            v2 = v2[::-1]
+        a2 = {'positive': 'up' if up2 else 'down'}
+        nm2 = second_name or f'{dim}_alt'
+        ds = ds.assign_coords({nm2: xarray.DataArray(numpy.array(v2, dtype='f8') / F8, dims=[dim], attrs=a2)})
+        coords.append({'name': nm2, 'attr': a2['positive'], 'vals': v2, 'bounds': None})
+    spec = {'dim': dim, 'n': n, 'up': up, 'deep_first': deep_first, 'phys': phys, 'coords': coords}
+    return ds, spec
